@@ -50,6 +50,29 @@ fn main() {
             }
             0
         }
+        Some("faults") if args.len() >= 6 => {
+            // per-op event counts of a script and the outcome of every read fault in op 0
+            let t = faultenum::script(args[4].parse().unwrap(), args[5].parse().unwrap());
+            let base = runner::run_one(&t);
+            println!("base violations: {:?}", base.violations.iter().map(|v| &v.check).collect::<Vec<_>>());
+            for (id, c) in base.stats.op_events.iter() {
+                println!("op {} events r/w/s/f {:?}", id, c);
+            }
+            let (id, c) = base.stats.op_events[0];
+            for nth in 0..c[0] {
+                let mut t2 = t.clone();
+                t2.faults = vec![disk::FaultSpec { op_id: id, kind: disk::EvKind::Read, nth, persistent: false }];
+                let r = runner::run_one(&t2);
+                println!(
+                    "read fault {} -> tainted={} ops={} viol={:?}",
+                    nth,
+                    r.stats.tainted,
+                    r.stats.ops,
+                    r.violations.iter().map(|v| v.check.clone()).collect::<Vec<_>>()
+                );
+            }
+            0
+        }
         Some("digest") if args.len() >= 7 => {
             // prints one line per run: run index and its event-log digest
             let p = gen::Profile::parse(&args[3]).expect("profile");
